@@ -109,6 +109,9 @@ def eval_seq(case):
     for i, sv in enumerate(case['servers']):
         h = 's%d' % i
         hosts.append(h)
+        if sv.get('proto') == 1:
+            net.add(h, 22, fakenet.peer_from_spec({'proto': 1, 'banner': sv['banner'], 'cmask': sv.get('cmask', 0x4c), 'amask': 0x0c}))
+            continue
         spec = {'banner': sv['banner'], 'kex': sv['lists']['kex'], 'key': sv['lists']['key'], 'enc': sv['lists']['enc'], 'mac': sv['lists']['mac'], 'hostkeys': {'ssh-ed25519': {'t': 'ed25519'}}, 'moduli': sv.get('moduli', []), 'gex_style': sv.get('gex_style', 'roundup')}
         net.add(h, 22, fakenet.Server(spec))
     tf = drive.tmpfile('\n'.join(hosts) + '\n')
@@ -121,6 +124,8 @@ def eval_seq(case):
         return mkres(case, nt=True, classes=['seq', 'crashed'], fails=[[drive.crash_sig(r) if r.exc else 'no-report', r.brief()]])
     docs = {d['target'].split(':')[0]: d for d in json.loads(r.out) if isinstance(d, dict) and 'target' in d}
     for i, sv in enumerate(case['servers']):
+        if sv.get('proto') == 1:
+            continue                # an SSH-1 peer is only there for what it may leave behind
         f2 = []
         check_document(docs['s%d' % i], sv['lists'], sv['banner'], f2)
         fails += [[sig, 'multi-target run, server %d of %d: %s' % (i + 1, len(case['servers']), d)] for sig, d in f2]
@@ -220,20 +225,28 @@ def strat_seq():
         {'banner': 'SSH-2.0-OpenSSH_8.0', 'lists': {'kex': ['curve25519-sha256', 'diffie-hellman-group-exchange-sha256'], 'key': ['ssh-ed25519'], 'enc': ['aes128-ctr'], 'mac': ['hmac-sha2-256']}, 'moduli': [], 'gex_style': 'openssh'},
         {'banner': 'SSH-2.0-OpenSSH_7.4', 'lists': {'kex': ['diffie-hellman-group-exchange-sha256', 'diffie-hellman-group-exchange-sha1'], 'key': ['ssh-ed25519'], 'enc': ['chacha20-poly1305@openssh.com', 'aes128-cbc'], 'mac': ['hmac-sha1-etm@openssh.com']}, 'moduli': [1024], 'gex_style': 'roundup'},
         {'banner': 'SSH-2.0-dropbear_2020.81', 'lists': {'kex': ['diffie-hellman-group-exchange-sha256'], 'key': ['ssh-ed25519', 'ssh-dss'], 'enc': ['3des-cbc', 'aes128-ctr'], 'mac': ['hmac-md5']}, 'moduli': [3072], 'gex_style': 'roundup'},
+        # protocol-1 peers of recognised products (the two rating tables share a few names: none, des, 3des, blowfish)
+        {'proto': 1, 'banner': 'SSH-1.5-OpenSSH_3.0', 'cmask': 0x4d},
+        {'proto': 1, 'banner': 'SSH-1.99-dropbear_0.52', 'cmask': 0x4d},
     ]
+    shared = [{'banner': b, 'lists': {'kex': ['curve25519-sha256'], 'key': ['ssh-ed25519'], 'enc': e, 'mac': ['hmac-sha2-256']}, 'moduli': []}
+              for b in ('SSH-2.0-dropbear_2020.81', 'SSH-2.0-libssh_0.9.6', 'SSH-2.0-OpenSSH_8.4') for e in (['none', 'aes128-ctr'], ['3des', 'des', 'blowfish', 'aes128-ctr'], ['aes128-ctr', 'none', '3des-cbc'])]
 
     def build(t):
         first, rest = t
         servers = [special[first % len(special)]]
+        if servers[0].get('proto') == 1:
+            servers.append(shared[(first // len(special) + len(rest)) % len(shared)])
         for c in rest:
             lists = dict(c['lists'])
             lists['kex'] = lists['kex'] + ['diffie-hellman-group-exchange-sha256']
             servers.append({'banner': c['banner'], 'lists': lists, 'moduli': [3072, 1024, 2048][len(lists['mac']) % 3], 'gex_style': 'roundup'})
+        servers = [dict(sv) for sv in servers]
         for sv in servers:
-            if not isinstance(sv.get('moduli'), list):
+            if sv.get('proto') != 1 and not isinstance(sv.get('moduli'), list):
                 sv['moduli'] = [sv['moduli']]
         return {'kind': 'seq', 'servers': servers}
-    return st.tuples(st.integers(0, 5), st.lists(strat_case().filter(lambda c: not c.get('probes')), min_size=1, max_size=2)).map(build)
+    return st.tuples(st.integers(0, 44), st.lists(strat_case().filter(lambda c: not c.get('probes')), min_size=1, max_size=2)).map(build)
 
 
 def run(ctx):
